@@ -17,6 +17,7 @@
   function of the oracle's answers).
 -/
 import Koreo.Lemmas.Overlay
+import Koreo.Gen.Overlay
 
 namespace Koreo.C12
 open Koreo Koreo.JVal Koreo.Overlay
@@ -128,6 +129,21 @@ theorem deep_overlay_idempotent (ov : Fields) (h : HDO ov) (res : Fields) :
 /-- `_forced_overlay` never has duplicate keys -/
 theorem forced_overlay_wf (apiVersion kind name : String) (ns : Option String) :
     HDO (forcedOverlay apiVersion kind name ns) := forcedOverlay_hdo apiVersion kind name ns
+
+/-- the translator recognised the shape of `_forced_overlay` in the current source -/
+theorem extraction_ok : Koreo.Gen.Overlay.extractionOk = true := by decide
+
+/-- the model's forced overlay has exactly the keys the source builds: the top-level keys, the
+    `metadata` keys always present, and the ones added only when a namespace is given -/
+theorem forced_overlay_matches_source (a k n : String) :
+    (∀ ns, JVal.keys (forcedOverlay a k n ns) = Koreo.Gen.Overlay.forcedKeys) ∧
+    JVal.lookup "metadata" (forcedOverlay a k n none) = some (.obj [("name", .str n)]) ∧
+    [("name", JVal.str n)].map (·.1) = Koreo.Gen.Overlay.forcedMetadataKeys ∧
+    (∀ ns, ∃ md, JVal.lookup "metadata" (forcedOverlay a k n (some ns)) = some (.obj md) ∧
+      JVal.keys md = Koreo.Gen.Overlay.forcedMetadataKeys ++ Koreo.Gen.Overlay.forcedMetadataOptionalKeys) := by
+  refine ⟨?_, rfl, rfl, ?_⟩
+  · intro ns; cases ns <;> rfl
+  · intro ns; exact ⟨_, rfl, rfl⟩
 
 /-! ## the ResourceFunction pipeline is an ordered fold of deep merges -/
 
